@@ -53,8 +53,8 @@ type c16case struct {
 	Abs   [][]int    `json:"absent,omitempty"` // extra keys to look up (small)
 
 	// observations
-	Hash       [][]int  `json:"hash"` // [h, key...] for every key written or queried (small): spooky.Hash32
-	HashAgree  bool     `json:"hash_agree"`
+	Hash       [][]int  `json:"hash"` // [h, key...] for every key written or queried (small): the WRITER-side hash
+	HashAgree  bool     `json:"hash_agree"` // hash stored in the file's slot of every record = streaming hash of its key
 	WriteErr   string   `json:"write_err"`
 	Queries    []query  `json:"queries"`
 	WrappersOK bool     `json:"wrappers_ok"` // Data, Reader.First, Reader.Exists agree with the first FindNext value
@@ -214,6 +214,8 @@ func wrappers(c *cdb.Cdb, r cdb.Reader, ctx *cdb.Context, key []byte, vals [][]b
 	return ok && err == nil
 }
 
+// streamHash is the hash the writer and Make compute (cdbHash(): spooky.New(0,0), Write, Sum32).
+// The reader's hashKey is unexported; that it agrees is observable only through lookups.
 func streamHash(key []byte) uint32 {
 	h := spooky.New(0, 0)
 	h.Reset()
@@ -239,7 +241,7 @@ func maxTable(kvs []kv) int {
 	var cnt [256]int
 	m := 0
 	for _, p := range kvs {
-		t := spooky.Hash32(p.k) % 256
+		t := streamHash(p.k) % 256
 		cnt[t]++
 		if cnt[t] > m {
 			m = cnt[t]
@@ -305,12 +307,8 @@ func runPairs(c *c16case, kvs []kv, queriesIn [][]byte, full bool) {
 		}
 	}
 	for _, k := range keys {
-		h := spooky.Hash32(k)
-		if streamHash(k) != h {
-			c.HashAgree = false
-		}
 		if full {
-			c.Hash = append(c.Hash, append([]int{int(h)}, hlib.Ints(k)...))
+			c.Hash = append(c.Hash, append([]int{int(streamHash(k))}, hlib.Ints(k)...))
 		}
 	}
 
@@ -319,6 +317,16 @@ func runPairs(c *c16case, kvs []kv, queriesIn [][]byte, full bool) {
 	if err != nil || db == nil {
 		c.WriteErr = "open: " + errStr(err)
 		return
+	}
+	// the hash the writer stored with every record is the streaming hash of its key
+	nrec := 0
+	if e := db.ForEachKeys(func(h uint32, k, v []byte) {
+		nrec++
+		if h != streamHash(k) {
+			c.HashAgree = false
+		}
+	}); e != nil || nrec != len(kvs) {
+		c.HashAgree = false
 	}
 	rd, _ := cdb.NewReader(name)
 	ctx := cdb.NewContext()
@@ -517,7 +525,19 @@ func genSmall(r *hlib.Rng) ([]kv, [][]byte, string) {
 	var kvs []kv
 	var abs [][]byte
 	class := ""
-	switch r.Pick([]int{1, 6, 4, 3, 6, 2, 1}) {
+	switch r.Pick([]int{1, 6, 4, 3, 6, 2, 1, 2}) {
+	case 7:
+		// keys of 90..200 bytes: the streaming hasher (writer) and the one-shot hash take different
+		// code paths from 96 bytes on
+		class = "longkey"
+		for i := 1 + r.Intn(3); i > 0; i-- {
+			k := r.Bytes(90+r.Intn(111), nil)
+			kvs = append(kvs, kv{k, smallVal(r)})
+			if r.Chance(1, 2) {
+				kvs = append(kvs, kv{smallKey(r), smallVal(r)}, kv{k, smallVal(r)})
+			}
+		}
+		abs = append(abs, r.Bytes(90+r.Intn(111), nil))
 	case 0:
 		class = "empty"
 	case 1:
@@ -637,6 +657,21 @@ func genBig(g *genParams) ([]kv, [][]byte) {
 		for i := 0; i < 200; i++ {
 			abs = append(abs, []byte(fmt.Sprintf("k%d", space+r.Intn(space))))
 		}
+	case "big-longkeys":
+		// g.N rounds; in every round one key of every length 90..200, each looked up
+		for round := 0; round < g.N; round++ {
+			for l := 90; l <= 200; l++ {
+				k := r.Bytes(l, nil)
+				kvs = append(kvs, kv{k, r.Bytes(r.Intn(6), nil)})
+				if r.Chance(1, 4) {
+					kvs = append(kvs, kv{k, r.Bytes(r.Intn(6), nil)})
+				}
+				if r.Chance(1, 4) {
+					abs = append(abs, r.Bytes(l, nil))
+				}
+			}
+		}
+		r.Shuffle(len(kvs), func(i, j int) { kvs[i], kvs[j] = kvs[j], kvs[i] })
 	case "big-onetable":
 		// every key in one table: long chains, wrap-around inside a big table
 		table := uint32(r.Intn(256))
@@ -796,7 +831,10 @@ func runMake(text []byte, class string) c16case {
 			db.ForEachKeys(func(h uint32, k, v []byte) {
 				if !seen[string(k)] {
 					seen[string(k)] = true
-					c.Hash = append(c.Hash, append([]int{int(spooky.Hash32(k))}, hlib.Ints(k)...))
+					if h != streamHash(k) {
+						c.HashAgree = false
+					}
+					c.Hash = append(c.Hash, append([]int{int(h)}, hlib.Ints(k)...))
 				}
 			})
 			db.Close()
@@ -862,6 +900,10 @@ func run(a *hlib.Args, e *hlib.Emitter) error {
 		kvs := []kv{{[]byte("kk"), bytes.Repeat([]byte("v"), vl)}, {[]byte("b"), []byte("second")}, {[]byte("kk"), []byte("third")}}
 		e.Emit(runSmall(kvs, [][]byte{[]byte("k")}, "straddle"))
 	}
+	for _, l := range []int{95, 96, 97, 191, 192, 193} {
+		k := bytes.Repeat([]byte{byte(l)}, l)
+		e.Emit(runSmall([]kv{{k, []byte("v1")}, {[]byte("short"), []byte("s")}, {k, []byte("v2")}}, [][]byte{k[:l-1], append(cp(k), 0)}, "longkey"))
+	}
 	for _, t := range fixedTexts {
 		e.Emit(runMake([]byte(t), "make-fixed"))
 	}
@@ -875,6 +917,7 @@ func run(a *hlib.Args, e *hlib.Emitter) error {
 		e.Emit(runBig(genParams{"big-random", n, a.Seed + uint64(i)}))
 		e.Emit(runBig(genParams{"big-straddle", n / 10, a.Seed + uint64(i)}))
 	}
+	e.Emit(runBig(genParams{"big-longkeys", 2, a.Seed}))
 	e.Emit(runBig(genParams{"big-onetable", sizes[1], a.Seed}))
 	for i, n := range few {
 		e.Emit(runBig(genParams{"big-fewslots", n, a.Seed + uint64(i)}))
